@@ -12,6 +12,7 @@ from .specdesc import terms_list
 
 STATS = {
     "s2": (("k1", "a"), ("k2", "b")),
+    "s2t": (("k1", "a"), ("k2", "ab")),
     "s0": (),
     "s1": (("k1", "a"),),
     "s2": (("k1", "a"), ("k2", "b")),
@@ -27,7 +28,7 @@ def fixture_classes(tier: str, seed: int):
 
     pats_ab = [["aa"], ["ab"], ["ba"], ["aba", "bb"], ["aa", "ab"], ["aa", "aaa"], ["b", "aa"], ["aab", "bba"], []]
     prefixes = ["", "a", "b", "ab", "ba", "aab", "bb", "bba", "abba", "bab"]
-    stats = ["s0", "s1", "s2", "s2m", "s3d", "s2x"] if tier == "thorough" else ["s0", "s2", "s2m", "s3d"]
+    stats = ["s0", "s1", "s2", "s2t", "s2m", "s3d", "s2x"] if tier == "thorough" else ["s0", "s2", "s2t", "s2m", "s3d"]
     out = []
     strategies = [W.Expand(), W.ExpandTrim(), W.RemoveFront(), W.RemoveFrontRename(), W.SplitFront(), W.SplitMonotone(), W.Swap(),
                   W.MinimizePatterns(), W.MergeStats(), W.RenameStats()]
@@ -51,7 +52,18 @@ def fixture_classes(tier: str, seed: int):
     rnd = random.Random(seed + 9)
     rnd.shuffle(out)
     if tier == "quick":
-        out = out[:420]
+        # the strategies that exist for one specific mechanism are never sampled away
+        special = ("SplitMonotone", "ExpandTrim", "RemoveFrontRename", "RenameStats", "SplitFront", "Cycle", "MergeStats")
+        first = [x for x in out if type(x[1]).__name__ in special]
+        per = {}
+        keep = []
+        for x in first:
+            k = type(x[1]).__name__
+            per[k] = per.get(k, 0) + 1
+            if per[k] <= 40:
+                keep.append(x)
+        rest = [x for x in out if x not in keep]
+        out = (keep + rest)[:460]
     return out
 
 
@@ -238,7 +250,7 @@ def lab_job(args):
         # an unexpected exception while building or driving a rule form: reported as a failed computation of that form
         events.append({"op": "formterms", "form": pr.split(":")[0], "c": namer(c), "n": 0, "terms": [[[-7], 1]], "error": pr})
     classes = {n: cl.desc() for cl, n in namer.names.items()}
-    tid = "%s|%s|%s|%s|%s" % (prefix or "e", ",".join(patterns), "".join(alphabet), len(stats), sname)
+    tid = "%s|%s|%s|%s|%s" % (prefix or "e", ",".join(patterns), "".join(alphabet), ";".join("%s=%s" % (a, b) for a, b in stats) or "-", sname)
     return {"tid": tid, "classes": classes, "events": events, "forms": [f for f, _ in forms]}
 
 
@@ -353,24 +365,27 @@ def lab_draws(fid, rule, namer, max_n, max_count=80) -> List[dict]:
                 branches, sel = [], []
                 failed = None
 
+                objs = []
+
                 def one(dec):
                     # the random source is an enumerator that honours the range the code asks for
                     disj.randint, cart.random, rulemod.random = dec.randint, dec, dec
                     del record[:]
-                    rule.random_sample_object_of_size(n, **params)
-                    return list(record)
+                    o = rule.random_sample_object_of_size(n, **params)
+                    return list(record), o
 
                 try:
-                    for _script, b in all_runs(one, limit=4 * max_count):
+                    for _script, (b, o) in all_runs(one, limit=4 * max_count):
                         if b not in branches:
                             branches.append(b)
                         sel.append(branches.index(b))
+                        objs.append(word_ints(parent, o))
                 except NotImplementedError:
                     return events
                 except Exception as e:
                     failed = type(e).__name__
                 ev = {"op": "draw", "form": fid, "c": namer(parent), "n": n, "params": [int(x) for x in p], "count": int(cnt),
-                      "sel": sel, "branches": branches}
+                      "sel": sel, "branches": branches, "objs": objs}
                 if failed:
                     ev["sel"], ev["error"] = [], failed
                 events.append(ev)
